@@ -1,6 +1,6 @@
 """A* family (C01, C02, C09, C10, C12, C16): problem generators, the real search through libdrv.so with the pop
 hook, serialisation of a run as a Gallina `run_ok` case, and independent oracles (exhaustive enumeration)."""
-import math, itertools
+import json, math, itertools
 import numpy
 import depccg_verif_rt as rt
 from gallina import gbool, gnat, gZ
@@ -15,6 +15,9 @@ Definition T (p : @tpop nat) i o s l h st : @trec nat := {| t_pop := p; t_in := 
 Definition Pb a b c d e f g h i j k l := {| p_tag := a; p_dep := b; p_bin := c; p_un := d; p_roots := e; p_pen := f; p_dedup := g;
   p_pruning := h; p_use_beta := i; p_theta := j; p_max_step := k; p_nbest := l |}.
 '''
+
+
+LAST_INPUT = None       # set by the checks: path of the file that names the input being searched right now
 
 
 class Problem:
@@ -44,6 +47,10 @@ class Problem:
         return [(c, True) + self.labels.get(('u', x, k), ('u%d' % k, '<u%d>' % k)) for k, c in enumerate(self.unary.get(x, []))]
 
     def run(self, trace=True):
+        if LAST_INPUT:
+            # the search runs in-process: should it take the process down, ./check reports this file as the input that did it
+            with open(LAST_INPUT, 'w') as f_:
+                json.dump({'kind': 'process_crashed', 'pjson': self.to_json()}, f_)
         return rt.search(self.tag, self.dep, self.roots, self.bin_cb, self.un_cb, unary_penalty=self.pen8 / 8.0, beta=self.beta,
                          use_beta=self.use_beta, pruning_size=self.pruning, nbest=self.nbest, max_step=self.max_step, trace=trace)
 
